@@ -43,6 +43,17 @@ func c12payload(r *rand.Rand, id string, buf []byte) []byte {
 	default:
 		body = 1 << 20
 	}
+	if r.IntN(8) == 0 {
+		// whole payload lengths around powers of two (64 B .. 128 KiB, +-9): chunk, page and pipe-buffer sizes
+		total := (1 << (6 + r.IntN(12))) + r.IntN(19) - 9
+		body = total - len(id) - 3
+		for k := 0; k < 3 && body > 0; k++ {
+			body = total - len(fmt.Sprintf("%s|%d|", id, body))
+		}
+		if body < 0 {
+			body = 0
+		}
+	}
 	hdr := fmt.Sprintf("%s|%d|", id, body)
 	buf = append(buf[:0], hdr...)
 	mode := r.IntN(3)
@@ -408,7 +419,7 @@ func init() {
 	register(&Prop{
 		ID: "C12", Level: "exploration", MinDistinct: 20, Worker: c12Worker,
 		Rule: "four named handles (obtained twice each before any Refresh) are bound by generated configurations to sync loggers, async loggers (Block, buffer 100/1000, optionally behind a slow appender) with 1-3 recording appenders whose references carry level settings \"\", ERROR, INFO~WARN, fatal, MAX, warn~warn (empty), ERROR~INFO (inverted), to Console/File/RollingFile logger kinds (sync, async, separate) or to the built-in root; " +
-			"1-8 concurrent writers each own ONE buffer, fill it with a self-describing payload (empty body, 1 B, binary with NUL/newlines, multi-line, up to 1 MiB), snapshot length+CRC, call Write and overwrite the buffer with 'Z' immediately after Write returns. Oracle after Destroy: every appender of the addressed logger holds every payload exactly once with the snapshot taken at call time, per-writer call order preserved, Write returned (len,nil); nothing arrives elsewhere. " +
+			"1-8 concurrent writers each own ONE buffer, fill it with a self-describing payload (empty body, 1 B, binary with NUL/newlines, multi-line, whole lengths within 9 bytes of every power of two from 64 B to 128 KiB, up to 1 MiB), snapshot length+CRC, call Write and overwrite the buffer with 'Z' immediately after Write returns. Oracle after Destroy: every appender of the addressed logger holds every payload exactly once with the snapshot taken at call time, per-writer call order preserved, Write returned (len,nil); nothing arrives elsewhere. " +
 			"A separate process checks that Refresh fails when a requested name is not configured. The race build repeats the runs (harness overwrite vs library read is a library race). Non-trivial/distinct = distinct (logger kinds and sink counts of the four handles, writers) tuples that matched.",
 		Assumptions: []string{"payload streams in files are parsed by their self-describing headers (each raw write is one O_APPEND write)"},
 		Run: func(d *D) {
